@@ -5,9 +5,8 @@ import ast
 import struct
 
 from ..core import Ctx
-from ..match import arg, call_name, calls, facts_at, local_defs, mentions, resolve, single_def, stores
-from ..model import AnalysisError, FuncInfo, ancestors, chain, const_value, enclosing_stmt, norm, parent, strip_cast, walk_no_nested
-from .c04 import _has_cond, _path_with
+from ..match import Fact, arg, call_name, calls, expr_context_facts, fact_of, facts_at, local_defs, single_def, stores
+from ..model import AnalysisError, FuncInfo, ancestors, chain, const_value, enclosing_stmt, norm, parent, set_parents, strip_cast, walk_no_nested
 
 LEVEL = "other"
 EXPLANATION = (
@@ -17,44 +16,292 @@ EXPLANATION = (
     "callers are add/add_by_hash (own key) and _append_chain_reaction_token (called only from gather_token), plus the "
     "database reload in PseudonymManager; the wake-up re-offers every waiting child of the appended token (no early exit) "
     "so forks do not depend on arrival order; the waiting area is bounded; content is attached only under a hash match; "
-    "wire chunk size equals the token struct size; verify/get_root_path check every step's signature. Permutations are "
-    "not enumerated."
+    "wire chunk size equals the token struct size and every chunk is offered to gather_token unconditionally; "
+    "verify/get_root_path check every step's signature. Permutations are not enumerated."
 )
 
 TR = "ipv8/attestation/tokentree/tree.py"
 TK = "ipv8/attestation/tokentree/token.py"
+SO = "ipv8/attestation/signed_object.py"
+
+_COMPS = (ast.ListComp, ast.SetComp, ast.DictComp, ast.GeneratorExp)
+_WRAPPERS = ("list", "tuple", "sorted", "reversed", "set", "frozenset")
 
 
+# ------------------------------------------------------------------------------------ expression recognition helpers
+def _clone(e: ast.AST) -> ast.AST:
+    return ast.parse(ast.unparse(e), mode="eval").body
+
+
+def _expand(fi: FuncInfo, e: ast.AST | None, depth: int = 4) -> ast.AST | None:
+    """Copy of e in which every single-assignment local is replaced by its defining expression (hoisted locals undone)."""
+    if e is None:
+        return None
+
+    class T(ast.NodeTransformer):
+        def __init__(self, d: int) -> None:
+            self.d = d
+
+        def visit_Name(self, n: ast.Name):  # noqa: N802
+            if isinstance(n.ctx, ast.Load) and self.d > 0:
+                d = single_def(fi, n.id)
+                if d is not None and d[1] is None and not isinstance(strip_cast(d[0]), (*_COMPS, ast.Lambda)):
+                    return T(self.d - 1).visit(_clone(strip_cast(d[0])))
+            return n
+
+    return T(depth).visit(_clone(strip_cast(e)))
+
+
+def _x(fi: FuncInfo, e: ast.AST | None) -> str | None:
+    """Normalised text of e after undoing local aliases."""
+    return None if e is None else norm(_expand(fi, e))
+
+
+def _is_none(e: ast.AST | None) -> bool:
+    return isinstance(e, ast.Constant) and e.value is None
+
+
+def _sha3_arg(e: ast.AST | None) -> ast.AST | None:
+    """X of `sha3_256(X).digest()` / `hashlib.sha3_256(X).digest()` (already expanded expression)."""
+    if isinstance(e, ast.Call) and isinstance(e.func, ast.Attribute) and e.func.attr == "digest" and not e.args:
+        inner = e.func.value
+        if isinstance(inner, ast.Call) and (chain(inner.func) or "").split(".")[-1] == "sha3_256" and len(inner.args) == 1:
+            return inner.args[0]
+    return None
+
+
+def _table_key(e: ast.AST | None, table: str) -> ast.AST | None:
+    """K of `table.get(K[, None])` (already expanded expression)."""
+    if isinstance(e, ast.Call) and chain(e.func) == table + ".get" and e.args and (len(e.args) == 1 or _is_none(e.args[1])):
+        return e.args[0]
+    return None
+
+
+def _is_table(e: ast.AST, table: str) -> bool:
+    return chain(e) in (table, table + ".keys()")
+
+
+def _split(e: ast.AST, pol: bool) -> list[Fact]:
+    """e has truthiness pol: atom facts where that is sound (and / or / not / chained comparison)."""
+    e = strip_cast(e)
+    if isinstance(e, ast.UnaryOp) and isinstance(e.op, ast.Not):
+        return _split(e.operand, not pol)
+    if isinstance(e, ast.BoolOp):
+        if isinstance(e.op, ast.And) == pol:
+            return [f for v in e.values for f in _split(v, pol)]
+        return []
+    return [fact_of(e, pol)]
+
+
+def _facts(fi: FuncInfo, cfg, site) -> list[Fact]:
+    """Dominating facts at site; a flag local (`ok = a == b` ... `if ok:`) is replaced by the facts of its definition."""
+    out: list[Fact] = []
+    for f in facts_at(cfg, site):
+        out.append(f)
+        if f.op == "truthy" and isinstance(f.left, ast.Name):
+            d = single_def(fi, f.left.id)
+            if d is not None and d[1] is None:
+                out.extend(_split(_expand(fi, d[0]), f.pos))
+    return out
+
+
+def _membership(fi: FuncInfo, f: Fact, table: str = "self.elements") -> tuple[str, bool] | None:
+    """(key text, is-contained) when fact f decides `key in table` (in / not in / .get(key) is None / truthy .get(key))."""
+    if f.op == "in" and _is_table(_expand(fi, f.right), table):
+        return _x(fi, f.left), f.pos
+    if f.op == "is" and _is_none(f.right):
+        k = _table_key(_expand(fi, f.left), table)
+        if k is not None:
+            return norm(k), not f.pos
+    if f.op == "truthy":
+        k = _table_key(_expand(fi, f.left), table)
+        if k is not None:
+            return norm(k), f.pos
+    return None
+
+
+def _is_verify_call(fi: FuncInfo, e: ast.AST | None, receiver: str) -> bool:
+    """e (after undoing aliases) is `<receiver>.verify(self.public_key)`."""
+    e = _expand(fi, e)
+    return isinstance(e, ast.Call) and chain(e.func) == f"{receiver}.verify" and \
+        norm(arg(e, 0, "public_key")) == "self.public_key" and len(e.args) + len(e.keywords) == 1
+
+
+# ------------------------------------------------------------------------------------ "parent is known" as path property
+class _ParentKnown:
+    """
+    Which outcomes of which conditions establish `tok.previous_token_hash == self.genesis_hash` or
+    `tok.previous_token_hash in self.elements`.  Works on atoms, boolean combinations, flag locals and (boolean) helper
+    methods of the same class that the normaliser did not inline.
+    """
+
+    def __init__(self, ctx: Ctx, fi: FuncInfo, tok: str, depth: int = 2) -> None:
+        self.ctx, self.fi, self.tok, self.depth = ctx, fi, tok, depth
+        self.kinds: set[str] = set()
+        self.opaque: dict[str, set[bool]] = {}      # helper calls on tok that could not be decided, per outcome
+
+    def atom(self, e: ast.AST) -> tuple[str, bool] | None:
+        """(kind, truthiness that establishes the fact) for an atomic test."""
+        prev = f"{self.tok}.previous_token_hash"
+        f = fact_of(e, True)
+        if f.op == "eq" and {_x(self.fi, f.left), _x(self.fi, f.right)} == {prev, "self.genesis_hash"}:
+            return "genesis", f.pos
+        m = _membership(self.fi, f)
+        if m is not None and m[0] == prev:
+            return "contained", m[1]
+        return None
+
+    def establishes(self, e: ast.AST, pol: bool) -> bool:
+        """Does `e` having truthiness `pol` imply that the parent of tok is the genesis hash or a contained token?"""
+        e = strip_cast(e)
+        if isinstance(e, ast.UnaryOp) and isinstance(e.op, ast.Not):
+            return self.establishes(e.operand, not pol)
+        if isinstance(e, ast.BoolOp):
+            rs = [self.establishes(v, pol) for v in e.values]
+            return any(rs) if isinstance(e.op, ast.And) == pol else all(rs)
+        if isinstance(e, ast.Constant):
+            return bool(e.value) != pol          # this outcome is impossible
+        if isinstance(e, ast.IfExp):
+            return self.establishes(e.body, pol) and self.establishes(e.orelse, pol)
+        if isinstance(e, ast.Name):
+            d = single_def(self.fi, e.id)
+            # sound for a stale flag too: the token is not rebound, elements only grows, the genesis hash is fixed
+            return d is not None and d[1] is None and self.establishes(d[0], pol)
+        a = self.atom(e)
+        if a is not None:
+            self.kinds.add(a[0])
+            return a[1] == pol
+        if isinstance(e, ast.Call) and self.depth > 0:
+            r = self._helper(e, pol)
+            if not r and chain(e.func) and chain(e.func).startswith("self.") and any(_x(self.fi, a) == self.tok for a in [*e.args, *[k.value for k in e.keywords]]):
+                self.opaque.setdefault(norm(e), set()).add(pol)
+            return r
+        return False
+
+    def _helper(self, call: ast.Call, pol: bool) -> bool:
+        if not (isinstance(call.func, ast.Attribute) and chain(call.func.value) == "self" and self.fi.cls is not None):
+            return False
+        targets = self.ctx.repo.resolve_call(self.fi, call)
+        if len(targets) != 1:
+            return False
+        h = targets[0]
+        ps = h.params()[1:]
+        p = next((ps[i] for i, a in enumerate(call.args) if i < len(ps) and _x(self.fi, a) == self.tok), None) or \
+            next((k.arg for k in call.keywords if k.arg in ps and _x(self.fi, k.value) == self.tok), None)
+        if p is None or local_defs(h, p):
+            return False
+        sub = _ParentKnown(self.ctx, h, p, self.depth - 1)
+        cfg = self.ctx.cfg(h)
+        edge = sub.edge_pred(cfg)
+        rets = [r for r in walk_no_nested(h.node) if isinstance(r, ast.Return)]
+        falls_off = any(not (n.kind == "stmt" and isinstance(n.ast, ast.Return)) for n, lab in cfg.exit.pred)
+        if falls_off and not pol:
+            return False                         # implicit `return None` is falsy
+        for r in rets:
+            v = r.value if r.value is not None else ast.Constant(value=None)
+            if sub.establishes(v, pol):
+                continue
+            if all(cfg.must_pass_edges(n, edge) for n in cfg.nodes_for(r)):
+                continue
+            return False
+        self.kinds |= sub.kinds
+        return bool(rets)
+
+    def edge_pred(self, cfg):
+        est: dict = {}
+        for n in cfg.nodes:
+            if n.kind == "cond":
+                labs = {pol for pol in (True, False) if self.establishes(n.ast, pol)}
+                if labs:
+                    est[n] = labs
+        return lambda u, v, lab: lab in est.get(u, ())
+
+
+# ------------------------------------------------------------------------------------ the raw writers of TokenTree.elements
+def _element_stores(fi: FuncInfo):
+    return [s for s, t in stores(fi, "self.elements[]") if not isinstance(s, ast.Delete)]
+
+
+def _raw_appenders(ctx: Ctx) -> dict[str, FuncInfo]:
+    """
+    Methods of TokenTree that put a token into `elements` without any check of their own: the ones that store into
+    self.elements directly and (transitively) the ones that hand a token to such a method.  add / add_by_hash (tokens
+    created with the own key) and gather_token (the checked entry) are the guarded entry points, not raw appenders.
+    """
+    tt = ctx.repo.cls("TokenTree", TR)
+    entry = {"add", "add_by_hash", "gather_token"}
+    raw = {n: f for n, f in tt.methods.items() if n not in entry and _element_stores(f)}
+    changed = True
+    while changed:
+        changed = False
+        for n, f in tt.methods.items():
+            if n in raw or n in entry:
+                continue
+            if any(isinstance(c.func, ast.Attribute) and chain(c.func.value) == "self" and c.func.attr in raw for c in calls(f)):
+                raw[n] = f
+                changed = True
+    return raw
+
+
+def _append_sites(fi: FuncInfo, raw: dict[str, FuncInfo]) -> list[tuple[ast.AST, ast.AST | None, ast.AST | None]]:
+    """(site, stored token expr, key expr or None) for direct stores into self.elements and calls of raw appenders."""
+    out = []
+    for s in _element_stores(fi):
+        tgt = next(t for t in (s.targets if isinstance(s, ast.Assign) else [s.target]) if chain(t) == "self.elements[]")
+        out.append((s, getattr(s, "value", None), tgt.slice))
+    for c in calls(fi):
+        if isinstance(c.func, ast.Attribute) and chain(c.func.value) == "self" and c.func.attr in raw:
+            out.append((c, arg(c, 0, raw[c.func.attr].params()[1] if len(raw[c.func.attr].params()) > 1 else None), None))
+    return out
+
+
+# ------------------------------------------------------------------------------------ rules
 def rule_verify_before_keep(ctx: Ctx) -> None:
     repo = ctx.repo
     fi = repo.method("TokenTree", "gather_token", TR)
     cfg = ctx.cfg(fi)
     tok = fi.params()[1]
+    raw = _raw_appenders(ctx)
     ctx.check(not local_defs(fi, tok), "verify-before-keep", fi, fi.node, "token parameter not rebound", "gather_token rebinds the offered token")
-    keep = [s for s, t in stores(fi, "self.unchained[]")]
-    app = calls(fi, "self._append_chain_reaction_token") + calls(fi, "self._append")
+    keep = [(s, t.slice) for s, t in stores(fi, "self.unchained[]") if isinstance(s, ast.Assign)]
+    app = [(s, v) for s, v, k in _append_sites(fi, raw)]
     ctx.floor("verify-before-keep", len(keep) + len(app), 2)
-    for s in [*keep, *app]:
-        fs = facts_at(cfg, s)
-        ok = any(f.op == "truthy" and f.pos and isinstance(f.left, ast.Call) and chain(f.left.func) == f"{tok}.verify"
-                 and norm(arg(f.left, 0)) == "self.public_key" for f in fs)
-        tgt_ok = (isinstance(s, ast.Assign) and norm(s.targets[0].slice) == tok) or (isinstance(s, ast.Call) and norm(arg(s, 0)) == tok)
+    for s, v in [*keep, *app]:
+        fs = _facts(fi, cfg, s)
+        ok = any(f.op == "truthy" and f.pos and _is_verify_call(fi, f.left, tok) for f in fs)
+        tgt_ok = _x(fi, v) == tok
         ctx.check(ok and tgt_ok, "verify-before-keep", fi, s, f"`{norm(s)[:50]}` dominated by token.verify(self.public_key)",
                   "a token that is not signed by the tree's key can be kept (waiting area or tree)", [str(f) for f in fs])
-    A = f"{tok}.previous_token_hash != self.genesis_hash"
-    B = f"{tok}.previous_token_hash not in self.elements"
-    for s in app:
-        bad = _path_with(cfg, s, [(A, True), (B, True)])
-        ctx.check(_has_cond(cfg, A) and _has_cond(cfg, B) and not bad, "verify-before-keep", fi, s,
+    pk = _ParentKnown(ctx, fi, tok)
+    edge = pk.edge_pred(cfg)
+    for s, v in app:
+        dominated = all(cfg.must_pass_edges(n, edge) for n in cfg.nodes_for(s))
+        if not dominated and any(len(v) == 2 for v in pk.opaque.values()):
+            raise AnalysisError("undecided: gather_token tests the token with a helper whose meaning could not be derived: " +
+                                ", ".join(k for k, v in pk.opaque.items() if len(v) == 2))
+        ctx.check(dominated and pk.kinds == {"genesis", "contained"}, "verify-before-keep", fi, s,
                   "token appended only if its parent is the genesis hash or a contained token",
                   "a dangling token (parent neither genesis nor contained) can be appended to the tree")
-        fs = facts_at(cfg, s)
-        fresh = any(f.op == "in" and not f.pos and norm(f.left) == f"{tok}.get_hash()" and chain(f.right) == "self.elements" for f in fs)
-        ctx.check(fresh, "verify-before-keep", fi, s, "token appended only if not contained yet", "a duplicate token replaces the contained one (and its content)")
-    # bounded waiting area
-    pi = [c for c in calls(fi, "self.unchained.popitem")]
-    ok = bool(pi) and const_value(arg(pi[0], 0)) is False and any(
-        f.op == "lt" and f.pos and norm(f.left) == "self.unchained_max_size" and norm(f.right) == "len(self.unchained)" for f in facts_at(cfg, pi[0]))
+        fs = _facts(fi, cfg, s)
+        fresh = any(_membership(fi, f) == (f"{tok}.get_hash()", False) for f in fs)
+        ctx.check(fresh, "verify-before-keep", fi, s, "token appended only if not contained yet", "a duplicate token replaces the contained one (and its content)",
+                  [str(f) for f in fs])
+    # bounded waiting area: the oldest waiting token is dropped only when the area exceeds its maximum size
+    evict = [c for c in calls(fi, "self.unchained.popitem")]
+    ok = bool(evict) and all(const_value(arg(c, 0, "last")) is False for c in evict)
+    if not evict:
+        oldest = "next(iter(self.unchained))"
+        evict = [c for c in calls(fi, "self.unchained.pop") if _x(fi, arg(c, 0)) == oldest] + \
+                [s for s, t in stores(fi, "self.unchained[]") if isinstance(s, ast.Delete) and _x(fi, t.slice) == oldest]
+        ok = bool(evict)
+    for c in evict:
+        exceeded = False
+        for f in _facts(fi, cfg, c):
+            if f.op == "lt":
+                lt, rt = _x(fi, f.left), _x(fi, f.right)
+                exceeded = exceeded or (f.pos and lt == "self.unchained_max_size" and rt == "len(self.unchained)") or \
+                    (not f.pos and lt == "len(self.unchained)" and rt in ("self.unchained_max_size + 1", "1 + self.unchained_max_size"))
+        ok = ok and exceeded
     ctx.check(ok, "verify-before-keep", fi, fi.node, "waiting area bounded by unchained_max_size (oldest dropped)", "the waiting area for orphan tokens is unbounded")
     # content attach on duplicates goes through receive_content
     for m, f2, a in repo.attribute_uses("content"):
@@ -63,8 +310,32 @@ def rule_verify_before_keep(ctx: Ctx) -> None:
                       f"content assigned in {f2.qualname}", "token content is assigned outside __init__/receive_content (hash check bypassed)")
 
 
+def _prev_pointer_ok(f2: FuncInfo, e: ast.AST | None) -> bool:
+    """The previous-pointer of a token created by add/add_by_hash: the genesis hash without `after`, else after.get_hash()."""
+    if e is None:
+        return False
+    after = f2.params()[2] if len(f2.params()) > 2 else "after"
+    values = {"self.genesis_hash", f"{after}.get_hash()"}
+    if isinstance(strip_cast(e), ast.Name) and not single_def(f2, e.id):
+        # assigned on several paths (`p = genesis` / `if after: p = after.get_hash()`): every reaching value must be one of the two
+        ds = local_defs(f2, e.id)
+        return bool(ds) and all(v is not None and i is None and _x(f2, v) in values for s, v, i in ds) and \
+            {_x(f2, v) for s, v, i in ds} == values
+    e = _expand(f2, e)
+    if not isinstance(e, ast.IfExp):
+        return False
+    none_when_true = {f"not {after}": True, after: False, f"{after} is None": True, f"{after} is not None": False,
+                      f"None is {after}": True, f"None is not {after}": False}.get(norm(e.test))
+    if none_when_true is None:
+        return False
+    g, a = (e.body, e.orelse) if none_when_true else (e.orelse, e.body)
+    return norm(g) == "self.genesis_hash" and norm(a) == f"{after}.get_hash()"
+
+
 def rule_writers(ctx: Ctx) -> None:
     repo = ctx.repo
+    raw = _raw_appenders(ctx)
+    tt = repo.cls("TokenTree", TR)
     n = 0
     for m in repo.modules.values():
         for node in ast.walk(m.tree):
@@ -73,28 +344,44 @@ def rule_writers(ctx: Ctx) -> None:
                 fi = repo.function_of(node)
                 n += 1
                 q = fi.qualname if fi else "?"
-                ok = q in ("TokenTree._append", "PseudonymManager.__init__")
+                # inside TokenTree the raw appenders may store (their own token parameter: checked below) and so may
+                # add / add_by_hash (the token they created with the own key: checked below); a store in gather_token
+                # is an append that skipped the wake-up
+                in_raw = fi is not None and fi.cls is tt and (fi.name in raw or fi.name in ("add", "add_by_hash")) and isinstance(node.ctx, ast.Store)
+                ok = in_raw or q == "PseudonymManager.__init__"
                 ctx.check(ok, "writers", fi or m.relpath, enclosing_stmt(node), f"elements written in {q}", "the token tree's element table is written outside _append / the database reload")
             if isinstance(node, ast.Call) and isinstance(node.func, ast.Attribute) and node.func.attr in ("pop", "clear", "update", "popitem", "setdefault") \
                     and (chain(node.func.value) or "").endswith(".elements") and m.relpath.startswith("ipv8/attestation/"):
                 fi = repo.function_of(node)
                 ctx.check(False, "writers", fi or m.relpath, node, "elements never shrinks/updates in bulk", "tokens are removed from / bulk-written into the tree")
     ctx.floor("writers", n, 2)
-    for m, fi, c in repo.callers_of_name("_append"):
-        if fi is None or not m.relpath.startswith("ipv8/attestation/"):
-            continue
-        ok = fi.qualname in ("TokenTree.add", "TokenTree.add_by_hash", "TokenTree._append_chain_reaction_token")
-        ctx.check(ok, "writers", fi, c, f"_append called from {fi.qualname}", "_append is called around the verification in gather_token")
-    for m, fi, c in repo.callers_of_name("_append_chain_reaction_token"):
-        if fi is None:
-            continue
-        ctx.check(fi.qualname == "TokenTree.gather_token", "writers", fi, c, "_append_chain_reaction_token called only from gather_token",
-                  "tokens are appended around gather_token's checks")
+    # closed set of raw appenders: private, each stores / hands on exactly its own (never rebound) token parameter under
+    # that token's hash, and is called only from add / add_by_hash (own key), from another raw appender, or - the
+    # waking appender only - from gather_token
+    for name, f in raw.items():
+        tokp = f.params()[1] if len(f.params()) > 1 else None
+        ctx.check(name.startswith("_") and tokp is not None and not local_defs(f, tokp), "writers", f, f.node,
+                  f"{name} is private and appends the token it is given", "a public / token-rebinding method writes the element table unchecked")
+        for s, v, k in _append_sites(f, raw):
+            if name == "_append_chain_reaction_token":
+                continue                    # its sites are judged by wake-all (`the token itself is appended first`)
+            ok = _x(f, v) == tokp and (k is None or _x(f, k) == f"{tokp}.get_hash()")
+            ctx.check(ok, "writers", f, s, f"{name} appends its own token parameter under its hash", "a token other than the checked one is written into the tree")
+        for m, fi, c in repo.callers_of_name(name):
+            if fi is None or not m.relpath.startswith("ipv8/attestation/"):
+                continue
+            if name == "_append_chain_reaction_token":
+                ctx.check(fi.qualname == "TokenTree.gather_token", "writers", fi, c, "_append_chain_reaction_token called only from gather_token",
+                          "tokens are appended around gather_token's checks")
+                continue
+            ok = fi.cls is tt and chain(c.func) == f"self.{name}" and (fi.name in ("add", "add_by_hash") or fi.name in raw)
+            ctx.check(ok, "writers", fi, c, f"{name} called from {fi.qualname}", f"{name} is called around the verification in gather_token")
     for name in ("add", "add_by_hash"):
         f2 = repo.method("TokenTree", name, TR)
         toks = calls(f2, "Token")
-        ok = len(toks) == 1 and norm(arg(toks[0], None, "private_key")) == "self.private_key" and \
-            norm(resolve(f2, arg(toks[0], 0))) == "self.genesis_hash if not after else after.get_hash()"
+        ok = len(toks) == 1 and _x(f2, arg(toks[0], 3, "private_key")) == "self.private_key" and _prev_pointer_ok(f2, arg(toks[0], 0, "previous_token_hash"))
+        sites = _append_sites(f2, raw)
+        ok = ok and bool(sites) and all(_x(f2, v) == _x(f2, toks[0]) for s, v, k in sites)
         ctx.check(ok, "writers", f2, f2.node, f"{name} signs with the tree's own key and chains to genesis or the given token", f"{name} creates tokens not chained/signed by the tree's key")
     # database reload: tokens are inserted into the database only after a successful gather_token
     pm = repo.cls("PseudonymManager", "ipv8/attestation/identity/manager.py")
@@ -104,47 +391,151 @@ def rule_writers(ctx: Ctx) -> None:
         for c in calls(f2):
             if call_name(c) == "insert_token":
                 n_ins += 1
-                fs = facts_at(cfg, c)
-                gathered = any((f.op == "is" and not f.pos and isinstance(resolve(f2, f.left), ast.Call) and call_name(resolve(f2, f.left)) in ("gather_token",)) or
-                               (f.op == "truthy" and f.pos and isinstance(resolve(f2, f.left), ast.Call) and call_name(resolve(f2, f.left)) == "gather_token") for f in fs)
-                own = isinstance(resolve(f2, arg(c, 1)), ast.Call) and call_name(resolve(f2, arg(c, 1))) in ("add", "add_by_hash")
+                fs = _facts(f2, cfg, c)
+                tokx = _x(f2, arg(c, 1, "token"))
+
+                def _gathered(e: ast.AST) -> bool:
+                    e = _expand(f2, e)
+                    return isinstance(e, ast.Call) and call_name(e) == "gather_token" and _x(f2, arg(e, 0, "token")) == tokx
+                gathered = any((f.op == "is" and not f.pos and _is_none(f.right) and _gathered(f.left)) or
+                               (f.op == "truthy" and f.pos and _gathered(f.left)) for f in fs)
+                made = _expand(f2, arg(c, 1, "token"))
+                own = isinstance(made, ast.Call) and call_name(made) in ("add", "add_by_hash")
                 ctx.check(gathered or own, "writers", f2, c, "token written to the database only after gather_token accepted it (or it was created with the own key)",
                           "a token is persisted (and later reloaded into the tree unverified) without having been accepted by gather_token", [str(f) for f in fs])
     ctx.floor("writers.insert_token", n_ins, 1)
     g = repo.method("TokenTree", "__init__", TR)
     gh = [s for s, t in stores(g, "self.genesis_hash")]
-    ok = len(gh) == 1 and norm(gh[0].value) == "sha3_256(self.public_key.key_to_bin()).digest()"
+    ok = bool(gh) and all(isinstance(s, (ast.Assign, ast.AnnAssign)) and norm(_sha3_arg(_expand(g, s.value))) == "self.public_key.key_to_bin()" for s in gh)
     ctx.check(ok, "writers", g, g.node, "genesis hash = sha3_256(public key)", "the genesis pointer is not the hash of the tree's key")
+
+
+def _unwrap_iter(fi: FuncInfo, e: ast.AST) -> ast.AST:
+    """Strip list(...) / tuple(...) / sorted(...) / .keys() / .copy() around an iterated collection."""
+    e = _expand(fi, e)
+    while True:
+        if isinstance(e, ast.Call) and isinstance(e.func, ast.Name) and e.func.id in _WRAPPERS and len(e.args) == 1:
+            e = e.args[0]
+        elif isinstance(e, ast.Call) and isinstance(e.func, ast.Attribute) and e.func.attr in ("keys", "copy") and not e.args:
+            e = e.func.value
+        else:
+            return e
+
+
+def _loop_of(node: ast.AST, stop: ast.AST):
+    """Innermost for-loop / comprehension generator whose body evaluates node: (loop node, generator or None)."""
+    prev = node
+    for a in ancestors(node):
+        if a is stop:
+            return None, None
+        if isinstance(a, (ast.For, ast.AsyncFor)) and prev is not a.iter and prev is not a.target:
+            return a, None
+        if isinstance(a, _COMPS) and not (a.generators and prev is a.generators[0] and _inside(node, a.generators[0].iter)):
+            return a, a.generators[-1]
+        prev = a
+    return None, None
+
+
+def _inside(node: ast.AST, root: ast.AST) -> bool:
+    return node is root or any(a is root for a in ancestors(node))
 
 
 def rule_wake_all(ctx: Ctx) -> None:
     repo = ctx.repo
     fi = repo.method("TokenTree", "_append_chain_reaction_token", TR)
+    cfg = ctx.cfg(fi)
     tok = fi.params()[1]
+    raw = _raw_appenders(ctx)
+    ctx.check(not local_defs(fi, tok), "wake-all", fi, fi.node, "token parameter not rebound", "_append_chain_reaction_token rebinds the appended token")
     # the scan of the waiting area must not stop at the first match
-    scans = [n for n in ast.walk(fi.node) if isinstance(n, (ast.For, ast.comprehension)) and chain(n.iter) in ("self.unchained", "list(self.unchained)")
-             or (isinstance(n, (ast.For, ast.comprehension)) and norm(n.iter) in ("list(self.unchained)", "self.unchained.keys()", "list(self.unchained.keys())"))]
+    scans = [n for n in ast.walk(fi.node) if isinstance(n, (ast.For, ast.comprehension)) and chain(_unwrap_iter(fi, n.iter)) == "self.unchained"]
     ctx.check(bool(scans), "wake-all", fi, fi.node, "the waiting area is scanned for children of the appended token", "waiting children are never re-offered")
     for s in scans:
         if isinstance(s, ast.For):
             early = [x for x in ast.walk(s) if isinstance(x, (ast.Break, ast.Return))]
             ctx.check(not early, "wake-all", fi, s, "scan of the waiting area examines every waiting token",
                       "only the first waiting child of the appended token is woken: with a fork arriving before its parent the tree depends on arrival order")
-    cond_ok = any(f"previous_token_hash == {tok}.get_hash()" in norm(n) for n in ast.walk(fi.node) if isinstance(n, ast.Compare))
+    scan_vars = {norm(s.target) for s in scans}
+    cond_ok = False
+    for n in ast.walk(fi.node):
+        if isinstance(n, ast.Compare) and len(n.ops) == 1 and isinstance(n.ops[0], (ast.Eq, ast.NotEq)):
+            sides = {_x(fi, n.left), _x(fi, n.comparators[0])}
+            cond_ok = cond_ok or any(sides == {f"{v}.previous_token_hash", f"{tok}.get_hash()"} for v in scan_vars)
     ctx.check(cond_ok, "wake-all", fi, fi.node, "children selected by previous_token_hash == appended.get_hash()", "children are not matched by parent hash")
-    # every selected token is re-offered through gather_token (full re-check) and removed from the waiting area
+    # every selected token is re-offered through gather_token (full re-check)
     gt = calls(fi, "self.gather_token")
     ok = bool(gt)
     for c in gt:
-        v = arg(c, 0)
-        in_loop = any(isinstance(a, ast.For) and norm(a.target) == norm(v) for a in ancestors(c))
-        single = isinstance(v, ast.Name) and not in_loop
-        if single:
-            # single variable: it must be impossible that more than one child exists -> not the case: flag
-            ok = False
+        v = arg(c, 0, "token")
+        if len(c.args) + len(c.keywords) != 1:
+            ok = False                      # nothing but the token may be passed (no `already verified` shortcuts)
+        loop, gen = _loop_of(c, fi.node)
+        target = gen.target if gen is not None else loop.target if loop is not None else None
+        if target is None or norm(target) != norm(v):
+            if any(isinstance(a, ast.While) for a in ancestors(c)):
+                raise AnalysisError("undecided: waiting children are re-offered from a while-loop in _append_chain_reaction_token")
+            ok = False                      # a single variable: at most one child is re-offered
+            continue
+        it = gen.iter if gen is not None else loop.iter
+        ok = ok and _derives_from_scan(fi, it, loop if gen is None else gen, scans)
     ctx.check(ok, "wake-all", fi, fi.node, "every waiting child is re-offered through gather_token", "at most one waiting child is re-offered")
-    ap = calls(fi, "self._append")
-    ctx.check(len(ap) == 1 and norm(arg(ap[0], 0)) == tok, "wake-all", fi, fi.node, "the token itself is appended first", "the token is not appended before its children are woken")
+    sites = _append_sites(fi, raw)
+    first = bool(sites) and all(_x(fi, v) == tok and (k is None or _x(fi, k) == f"{tok}.get_hash()") for s, v, k in sites)
+    app_nodes = [n for s, v, k in sites for n in cfg.nodes_for(s)]
+    before = all(cfg.must_complete(n, app_nodes) for c in gt for n in cfg.nodes_for(c))
+    ctx.check(first and before, "wake-all", fi, fi.node, "the token itself is appended first", "the token is not appended before its children are woken")
+
+
+def _derives_from_scan(fi: FuncInfo, it: ast.AST, loop: ast.AST, scans: list) -> bool:
+    """The collection iterated by the re-offering loop is the result of a complete scan of the waiting area."""
+    if any(loop is s for s in scans):
+        return True
+    e = strip_cast(it)
+    while isinstance(e, ast.Call) and isinstance(e.func, ast.Name) and e.func.id in _WRAPPERS and len(e.args) == 1:
+        e = e.args[0]
+    if isinstance(e, _COMPS):
+        return any(g is s for g in e.generators[:1] for s in scans)
+    if not isinstance(e, ast.Name):
+        return False
+    for stmt, val, idx in local_defs(fi, e.id):
+        v = strip_cast(val) if val is not None else None
+        while isinstance(v, ast.Call) and isinstance(v.func, ast.Name) and v.func.id in _WRAPPERS and len(v.args) == 1:
+            v = v.args[0]
+        if isinstance(v, _COMPS) and any(v.generators[0] is s for s in scans):
+            return True
+    for c in calls(fi):
+        if isinstance(c.func, ast.Attribute) and c.func.attr in ("append", "add") and chain(c.func.value) == e.id and \
+                any(a is s for a in ancestors(c) for s in scans if isinstance(s, ast.For)):
+            return True
+    return False
+
+
+def _unconditional_in_source(fi: FuncInfo, callee: str) -> bool:
+    """
+    Decided on the source text as written (before load-time normalisation): fi calls self.<callee> exactly once and not
+    in a conditionally evaluated expression position.  Needed because the alias elimination substitutes
+    `r = self.f(x)` / `ok = ok and r is not None` into `ok = ok and self.f(x) is not None`, which would make an
+    unconditional call look short-circuited.
+    """
+    try:
+        tree = ast.parse(fi.module.src)
+    except SyntaxError:
+        return False
+    set_parents(tree)
+    for cls in [c for c in ast.walk(tree) if isinstance(c, ast.ClassDef) and fi.cls is not None and c.name == fi.cls.name]:
+        for fn in [f for f in cls.body if isinstance(f, (ast.FunctionDef, ast.AsyncFunctionDef)) and f.name == fi.name]:
+            found = [c for c in walk_no_nested(fn) if isinstance(c, ast.Call) and chain(c.func) == f"self.{callee}"]
+            return len(found) == 1 and not expr_context_facts(found[0]) and not any(isinstance(a, (ast.IfExp, *_COMPS, ast.Lambda)) for a in ancestors(found[0]))
+    return False
+
+
+def _never_both_missing(cfg, a_nodes: list, b_nodes: list) -> bool:
+    """No normal path entry -> a -> exit that avoids every node of b."""
+    pre = cfg.reach(cut_nodes=b_nodes)
+    for a in a_nodes:
+        if a in pre and not cfg.always_followed_by(a, b_nodes):
+            return False
+    return True
 
 
 def rule_content(ctx: Ctx) -> None:
@@ -152,81 +543,171 @@ def rule_content(ctx: Ctx) -> None:
     rc = repo.method("Token", "receive_content", TK)
     cfg = ctx.cfg(rc)
     c = rc.params()[1]
+    ctx.check(not local_defs(rc, c), "content-binding", rc, rc.node, "content parameter not rebound", "receive_content rebinds the content it checks")
     for s, t in stores(rc, "self.content"):
-        fs = facts_at(cfg, s)
+        fs = _facts(rc, cfg, s)
         ok = False
         for f in fs:
             if f.op == "eq" and f.pos:
-                sides = [norm(resolve(rc, x)) for x in (f.left, f.right)]
-                if f"hashlib.sha3_256({c}).digest()" in sides and "self.content_hash" in sides:
+                sides = [_expand(rc, x) for x in (f.left, f.right)]
+                if any(norm(_sha3_arg(x)) == c for x in sides) and any(norm(x) == "self.content_hash" for x in sides):
                     ok = True
-        ctx.check(ok and chain(s.value) == c, "content-binding", rc, s, "content attached only if sha3_256(content) == content_hash",
+        ctx.check(ok and _x(rc, getattr(s, "value", None)) == c, "content-binding", rc, s, "content attached only if sha3_256(content) == content_hash",
                   "content that does not hash to the token's content pointer can be attached", [str(f) for f in fs])
     init = repo.method("Token", "__init__", TK)
-    hs = [s for s, t in stores(init, "self.content_hash")]
-    ok = any(norm(s.value) == "hashlib.sha3_256(content).digest()" for s in hs) and any(norm(s.value) == "content_hash" for s in hs)
+    icfg = ctx.cfg(init)
+    cp = "content"
+    hs = [s for s, t in stores(init, "self.content_hash") if isinstance(s, (ast.Assign, ast.AnnAssign))]
+    for s in hs:
+        if isinstance(s.value, ast.Name) and local_defs(init, s.value.id) and single_def(init, s.value.id) is None:
+            raise AnalysisError(f"undecided: Token.__init__ stores a content hash that is (re)assigned on several paths: `{norm(s)}`")
+    derived = [s for s in hs if norm(_sha3_arg(_expand(init, s.value))) == cp]
+    given = [s for s in hs if _x(init, s.value) == "content_hash"]
+    attach = [s for s, t in stores(init, "self.content") if isinstance(s, (ast.Assign, ast.AnnAssign)) and s.value is not None and not _is_none(_expand(init, s.value))]
+    ok = bool(derived) and bool(given) and len(derived) + len(given) == len(hs) and all(_x(init, s.value) == cp for s in attach) and not local_defs(init, cp) and \
+        _never_both_missing(icfg, [n for s in attach for n in icfg.nodes_for(s)], [n for s in derived for n in icfg.nodes_for(s)])
     ctx.check(ok, "content-binding", init, init.node, "content hash derived from the content when content is given", "Token.__init__ accepts content with an unrelated hash")
     gp = repo.method("Token", "get_plaintext", TK)
-    ok = any(isinstance(r, ast.Return) and norm(r.value) == "self.previous_token_hash + self.content_hash" for r in ast.walk(gp.node))
+    rets = [r for r in walk_no_nested(gp.node) if isinstance(r, ast.Return)]
+    ok = bool(rets) and all(_x(gp, r.value) == "self.previous_token_hash + self.content_hash" for r in rets)
     ctx.check(ok, "content-binding", gp, gp.node, "signed plaintext = previous hash + content hash", "the signature does not cover both pointers")
+
+
+def _walk_to_root(ctx: Ctx, f2: FuncInfo, name: str) -> None:
+    """verify / get_root_path: every token on the walk is signature-checked; the walk succeeds only at the genesis hash."""
+    cfg = ctx.cfg(f2)
+    loops = [l for l in walk_no_nested(f2.node) if isinstance(l, ast.While)]
+    # the steps: `<cursor> = self.elements[...]` inside the loop
+    steps = []
+    for s in walk_no_nested(f2.node):
+        if isinstance(s, ast.Assign) and len(s.targets) == 1 and isinstance(s.targets[0], ast.Name) and any(isinstance(a, ast.While) for a in ancestors(s)):
+            v = _expand(f2, s.value)
+            if (isinstance(v, ast.Subscript) and chain(v.value) == "self.elements") or _table_key(v, "self.elements") is not None:
+                steps.append(s)
+    if loops and not steps:
+        raise AnalysisError(f"undecided: no step `<cursor> = self.elements[...]` recognised in TokenTree.{name}")
+    cursors = {s.targets[0].id for s in steps}
+    ok = bool(loops) and len(cursors) == 1
+    if ok:
+        cur = next(iter(cursors))
+        ver = [n for n in cfg.nodes if n.kind == "cond" and _is_verify_call(f2, n.ast, cur) and any(isinstance(a, ast.While) for a in ancestors(n.ast))]
+        gen = {}
+        for n in cfg.nodes:
+            if n.kind == "cond":
+                f = fact_of(n.ast, True)
+                if f.op == "eq" and {_x(f2, f.left), _x(f2, f.right)} == {f"{cur}.previous_token_hash", "self.genesis_hash"}:
+                    gen[n] = f.pos
+        # paths are followed from every (re)definition of the cursor: the facts must hold for the *current* token
+        defs = [n for s, v, i in local_defs(f2, cur) for n in cfg.nodes_for(s)]
+        starts = [cfg.entry] + [v for d in defs for v, lab in d.succ if lab != "exc"]
+        unverified = cfg.reach(starts, cut_edge=lambda u, v, lab: u in ver and lab is True)
+        not_root = cfg.reach(starts, cut_edge=lambda u, v, lab: u in gen and lab is gen[u])
+        ok = bool(ver)
+        # advancing to the parent happens only after the signature of the current token was checked
+        ok = ok and all(n not in unverified for s in steps for n in cfg.nodes_for(s))
+        # leaving the walk successfully: break, or a non-empty result returned from inside the loop
+        done = [b for l in loops for b in ast.walk(l) if isinstance(b, ast.Break)]
+        done += [r for l in loops for r in ast.walk(l) if isinstance(r, ast.Return) and r.value is not None and not isinstance(r.value, ast.Constant)
+                 and not (isinstance(r.value, (ast.List, ast.Tuple, ast.Set, ast.Dict)) and not getattr(r.value, "elts", getattr(r.value, "keys", None)))]
+        if not done and any("genesis_hash" in norm(l.test) for l in loops):
+            raise AnalysisError(f"undecided: TokenTree.{name} ends its walk through the loop condition")
+        ok = ok and bool(done) and all(n not in unverified and n not in not_root for b in done for n in cfg.nodes_for(b))
+    ctx.check(ok, "wire-chunks", f2, f2.node, f"{name}: each step's signature is checked; the walk ends only at the genesis hash",
+              f"{name} accepts a path without checking every signature or without reaching the genesis")
 
 
 def rule_wire(ctx: Ctx) -> None:
     repo = ctx.repo
     up = repo.method("TokenTree", "unserialize_public", TR)
-    cs = single_def(up, "chunk_size")
-    ok = cs is not None and norm(cs[0]) in ("64 + sig_len", "sig_len + 64") and norm(single_def(up, "sig_len")[0]) == "self.public_key.get_signature_length()"
+    cfg = ctx.cfg(up)
+    data = up.params()[1]
     tu = repo.method("Token", "unserialize", TK)
+    tparams = [p for p in tu.params() if p != "cls"]          # data, public_key, offset
+    # struct format of one token: constant prefix + `{signature length}s`
+    fixed = None
     fmt = [c for c in calls(tu) if call_name(c) == "unpack_from"]
-    fok = False
-    if fmt and isinstance(fmt[0].args[0], ast.JoinedStr):
-        parts = [v.value if isinstance(v, ast.Constant) else "{" + norm(v.value) + "}" for v in fmt[0].args[0].values]
-        fok = "".join(parts) == ">32s32s{sig_len}s" and struct.calcsize(">32s32s") == 64
-    ctx.check(ok and fok, "wire-chunks", up, up.node, "chunk size 64 + sig_len == size of >32s32s{sig_len}s", "wire chunk size and token struct format disagree")
-    loops = [l for l in walk_no_nested(up.node) if isinstance(l, ast.For)]
-    ok = bool(loops) and norm(loops[0].iter) == f"range(0, len({up.params()[1]}), chunk_size)" and not any(isinstance(x, (ast.Break, ast.Return)) for x in ast.walk(loops[0]))
+    if fmt and len(tparams) >= 3:
+        f0 = _expand(tu, arg(fmt[0], 0, "format"))
+        if isinstance(f0, ast.JoinedStr) and len(f0.values) == 3 and isinstance(f0.values[0], ast.Constant) and isinstance(f0.values[1], ast.FormattedValue) \
+                and isinstance(f0.values[2], ast.Constant) and f0.values[2].value == "s" and norm(f0.values[1].value) == f"{tparams[1]}.get_signature_length()" \
+                and _x(tu, arg(fmt[0], 1, "buffer")) == tparams[0] and _x(tu, arg(fmt[0], 2, "offset")) == tparams[2]:
+            try:
+                fixed = struct.calcsize(f0.values[0].value)
+            except struct.error:
+                fixed = None
     g = [c for c in calls(up, "self.gather_token")]
-    ok = ok and len(g) == 1 and isinstance(arg(g[0], 0), ast.Call) and chain(arg(g[0], 0).func) == "Token.unserialize" and norm(arg(arg(g[0], 0), 1)) == "self.public_key"
+    loop, gen = _loop_of(g[0], up.node) if len(g) == 1 else (None, None)
+    it = _expand(up, gen.iter if gen is not None else loop.iter) if loop is not None else None
+    var = norm(gen.target if gen is not None else loop.target) if loop is not None else None
+    step = None
+    if isinstance(it, ast.Call) and chain(it.func) == "range" and len(it.args) == 3 and not it.keywords and const_value(it.args[0]) == 0 \
+            and norm(it.args[1]) == f"len({data})":
+        step = it.args[2]
+    size_ok = False
+    if isinstance(step, ast.BinOp) and isinstance(step.op, ast.Add):
+        consts = [repo.resolve_const(up.module, x, up.cls) for x in (step.left, step.right)]
+        ints = [v for v in consts if isinstance(v, int) and not isinstance(v, bool)]
+        sig = [x for x in (step.left, step.right) if norm(x) == "self.public_key.get_signature_length()"]
+        size_ok = len(ints) == 1 and len(sig) == 1 and fixed is not None and ints[0] == fixed
+    ctx.check(size_ok, "wire-chunks", up, up.node, "chunk size 64 + sig_len == size of >32s32s{sig_len}s", "wire chunk size and token struct format disagree")
+    ok = loop is not None and step is not None
+    if ok:
+        un = _expand(up, arg(g[0], 0, "token"))
+        ok = isinstance(un, ast.Call) and chain(un.func) == "Token.unserialize" and norm(arg(un, 0, tparams[0])) == data and \
+            norm(arg(un, 1, tparams[1])) == "self.public_key" and norm(arg(un, 2, tparams[2])) == var and len(g[0].args) + len(g[0].keywords) == 1
+    every = ok
+    if ok and gen is None:
+        ok = not any(isinstance(x, (ast.Break, ast.Return)) for x in ast.walk(loop))
+        # no iteration completes without the gather_token call having been evaluated
+        gn = cfg.nodes_for(g[0])
+        for ln in cfg.nodes_for(loop):
+            r = cfg.reach([v for v, lab in ln.succ if lab is True], cut_nodes=gn, follow_exc=False)
+            every = every and ln not in r and cfg.exit not in r
+    elif ok:
+        consumer = parent(loop)
+        full = not isinstance(loop, ast.GeneratorExp) or (isinstance(consumer, ast.Call) and chain(consumer.func) in (*_WRAPPERS, "sum", "min", "max"))
+        if isinstance(loop, ast.GeneratorExp) and not isinstance(consumer, ast.Call):
+            raise AnalysisError("undecided: unserialize_public offers the chunks from a generator whose consumer is not visible")
+        every = every and full and len(loop.generators) == 1 and not gen.ifs and _inside(g[0], getattr(loop, "elt", getattr(loop, "value", None)))
     ctx.check(ok, "wire-chunks", up, up.node, "every chunk is unserialized and offered to gather_token", "unserialize_public skips chunks or bypasses gather_token")
+    if ok:
+        cond = [str(f) for f in expr_context_facts(g[0])]
+        if cond and _unconditional_in_source(up, "gather_token"):
+            cond = []           # the call was moved next to its only use by the load-time alias elimination, not by the author
+        ctx.check(every and not cond, "wire-chunks", up, enclosing_stmt(g[0]), "gather_token is evaluated for every chunk, whatever the earlier chunks returned",
+                  "unserialize_public offers a chunk to gather_token only while all earlier chunks were accepted (short-circuit / conditional call): "
+                  "None is the normal result for a token that arrives before its parent, so a tip-first serialisation (serialize_public(up_to=...)) "
+                  "no longer reloads to the same tree", cond)
     sp = repo.method("TokenTree", "serialize_public", TR)
-    ok = all(call_name(c) in ("get_plaintext_signed", "join") for c in calls(sp)) and len(calls(sp, "get_plaintext_signed")) if False else True
     emits = [c for c in calls(sp) if call_name(c) == "get_plaintext_signed"]
     ctx.check(len(emits) >= 2, "wire-chunks", sp, sp.node, "serialize_public emits get_plaintext_signed of each token", "serialize_public does not emit the signed double pointers")
     for name in ("verify", "get_root_path"):
-        f2 = repo.method("TokenTree", name, TR)
-        cfg = ctx.cfg(f2)
-        loops = [l for l in walk_no_nested(f2.node) if isinstance(l, ast.While)]
-        vs = [c for c in calls(f2) if call_name(c) == "verify" and norm(arg(c, 0)) == "self.public_key"]
-        ok = bool(loops) and bool(vs) and any(isinstance(a, ast.While) for a in ancestors(vs[0]))
-        # advancing to the parent happens only after the signature of the current token was checked
-        adv = [s for s in walk_no_nested(f2.node) if isinstance(s, ast.Assign) and chain(s.targets[0]) == "current" and "self.elements[" in norm(s.value)]
-        vn = [n for n in cfg.nodes if n.kind == "cond" and isinstance(n.ast, ast.Call) and n.ast in vs]
-        if ok and adv and vn:
-            for a in adv:
-                for an in cfg.nodes_for(a):
-                    fs = facts_at(cfg, a)
-                    ok = ok and any(f.op == "truthy" and f.pos and f.left in vs for f in fs)
-        brk = [b for b in ast.walk(f2.node) if isinstance(b, ast.Break)]
-        ok = ok and bool(brk) and all(any(f.op == "eq" and f.pos and {norm(f.left), norm(f.right)} == {"current.previous_token_hash", "self.genesis_hash"} for f in facts_at(cfg, b)) for b in brk)
-        ctx.check(ok, "wire-chunks", f2, f2.node, f"{name}: each step's signature is checked; the walk ends only at the genesis hash",
-                  f"{name} accepts a path without checking every signature or without reaching the genesis")
+        _walk_to_root(ctx, repo.method("TokenTree", name, TR), name)
 
 
 def rule_signed_object(ctx: Ctx) -> None:
-    so = ctx.repo.method("AbstractSignedObject", "verify", "ipv8/attestation/signed_object.py")
+    so = ctx.repo.method("AbstractSignedObject", "verify", SO)
     pk = so.params()[1]
     rets = [r for r in walk_no_nested(so.node) if isinstance(r, ast.Return)]
     ctx.anchor(rets, "return in AbstractSignedObject.verify")
     for r in rets:
-        v = resolve(so, r.value)
-        is_check = isinstance(v, ast.Call) and call_name(v) == "is_valid_signature" and [norm(a) for a in v.args] == [pk, "self.get_plaintext()", "self.signature"]
+        v = _expand(so, r.value)
+        is_check = isinstance(v, ast.Call) and call_name(v) == "is_valid_signature" and len(v.args) + len(v.keywords) == 3 and \
+            [norm(arg(v, i, k)) for i, k in enumerate(("ec_key", "data", "signature"))] == [pk, "self.get_plaintext()", "self.signature"]
         is_false = const_value(r.value) is False
         ctx.check(is_check or is_false, "verify-before-keep", so, r, "verify(public_key) returns is_valid_signature(public_key, plaintext, signature) (or False)",
                   "AbstractSignedObject.verify can return a verdict that was not computed for the given public key (e.g. a cached result): a token that once verified "
                   "against its real signer verifies against every key")
     ctx.check(not local_defs(so, pk), "verify-before-keep", so, so.node, "public_key parameter not rebound", "verify rebinds the key it was asked to check")
-    hsh = ctx.repo.method("AbstractSignedObject", "_sign", "ipv8/attestation/signed_object.py")
-    ok = any(norm(s_.value) == "hashlib.sha3_256(self.get_plaintext_signed()).digest()" for s_, t in stores(hsh, "self._hash"))
+    hsh = ctx.repo.method("AbstractSignedObject", "_sign", SO)
+    signed = "self.get_plaintext() + self.signature"
+    gps = ctx.repo.method("AbstractSignedObject", "get_plaintext_signed", SO)
+    gps_rets = [r for r in walk_no_nested(gps.node) if isinstance(r, ast.Return)]
+    gps_ok = bool(gps_rets) and all(_x(gps, r.value) == signed for r in gps_rets)
+    ok = False
+    for s_, t in stores(hsh, "self._hash"):
+        covered = _sha3_arg(_expand(hsh, getattr(s_, "value", None)))
+        ok = ok or norm(covered) == signed or (norm(covered) == "self.get_plaintext_signed()" and gps_ok)
     ctx.check(ok, "verify-before-keep", hsh, hsh.node, "object hash covers plaintext and signature", "the object hash no longer covers plaintext + signature")
     fdt = ctx.repo.method("Token", "from_database_tuple", TK)
     for s_, t in stores(fdt, lambda c: c.endswith(".content")):
@@ -302,4 +783,17 @@ WITNESSES = [
     {"name": "root path skips signature check", "file": TR, "rule": "wire-chunks",
      "old": "        path = [token]\n        while maxdepth == -1 or maxdepth > steps:\n            if not current.verify(self.public_key):\n                return []\n",
      "new": "        path = [token]\n        while maxdepth == -1 or maxdepth > steps:\n"},
+    {"name": "reload stops offering chunks after the first parked token (short-circuit and)", "file": TR, "rule": "wire-chunks",
+     "old": "            correct &= self.gather_token(Token.unserialize(s, self.public_key, offset=i)) is not None",
+     "new": "            correct = correct and self.gather_token(Token.unserialize(s, self.public_key, offset=i)) is not None"},
+    {"name": "reload stops at the first parked token (early return)", "file": TR, "rule": "wire-chunks",
+     "old": "            correct &= self.gather_token(Token.unserialize(s, self.public_key, offset=i)) is not None",
+     "new": "            if self.gather_token(Token.unserialize(s, self.public_key, offset=i)) is None:\n                return False"},
+    {"name": "gather_token appends without waking the waiting children", "file": TR, "rule": "writers",
+     "old": "            self._append_chain_reaction_token(token)\n            return token",
+     "new": "            self._append(token)\n            return token"},
+    {"name": "walk verifies only every other token", "file": TR, "rule": "wire-chunks",
+     "old": "            current = self.elements[current.previous_token_hash]\n            steps += 1\n        return steps < maxdepth",
+     "new": "            current = self.elements[current.previous_token_hash]\n            if current.previous_token_hash in self.elements:\n"
+            "                current = self.elements[current.previous_token_hash]\n            steps += 1\n        return steps < maxdepth"},
 ]
